@@ -3,20 +3,27 @@
 import json, os
 
 ENGINE = "coq-proof+correspondence"
-CHECKS = {
- "C16": dict(
-   technique="Coq proof (fuelled transliteration of is_equivalent/is_conformant/coerced; preorder, equivalence, variance and coercion laws for all types) with model/code correspondence",
-   text="Theorems (coq/Props/C16.v, closed under the global context) hold for every type of any depth and arity whose context keys are unique: equivalence is reflexive/symmetric/transitive and implies mutual conformance, conformance is reflexive/transitive with Any top and Null bottom, list/range/context/function variance, function results, coercion = identity/wrap/unwrap/null, conforms-or-null, idempotent. Tied to feel/src/types.rs by comparing both relations on the exhaustive depth-1 universe and sampled deeper types, and coerced/type_of on generated values; the laws are also evaluated on the implementation's own answers.",
-   note="Trusted: Coq kernel + vm_compute, hand-written model of types.rs / Value::type_of (correspondence-checked, not verified), harness. Atom payloads and names are abstract."),
- "C17": dict(
-   technique="Coq proof (invariant by induction over histories + refinement of an abstract workspace) with model/code correspondence",
-   text="Theorems (coq/Props/C17.v, closed under the global context) hold for every operation history of the modelled workspace: the index/list invariant, refinement of the abstract workspace, add-iff-free, deployed-exactly, failed-build isolation. The model is tied to workspace.rs by comparing every step of exhaustive short and random long histories (state via the verif_snapshot hook).",
-   note="Trusted: Coq kernel + vm_compute, hand-written model of workspace.rs (correspondence-checked, not verified), harness, ModelEvaluator::new abstracted to a `builds` flag."),
-}
+CHECKS = {}
 NOT_APPLICABLE = {}
 PENDING = "not yet built in this round: no check is registered, nothing is claimed"
 
+def collect():
+    """Every plug-in props/cNN.py that defines MANIFEST = dict(technique=, text=, note=[, category=]) is a claimed check."""
+    import importlib, sys
+    here = os.path.dirname(os.path.abspath(__file__))
+    sys.path.insert(0, here)
+    for i in range(1, 21):
+        pid = 'C%02d' % i
+        if os.path.exists(os.path.join(here, 'props', pid.lower() + '.py')):
+            mod = importlib.import_module('props.' + pid.lower())
+            if hasattr(mod, 'MANIFEST'):
+                CHECKS[pid] = mod.MANIFEST
+            if hasattr(mod, 'NOT_APPLICABLE'):
+                NOT_APPLICABLE[pid] = mod.NOT_APPLICABLE
+
+
 def main():
+    collect()
     ids = ['C%02d' % i for i in range(1, 21)]
     checks = []
     for pid in ids:
